@@ -81,6 +81,7 @@ def to_statuses(smap):
 
 def generate(rng, tier):
     names = ['AAA-MIB', 'BBB-MIB', 'CCC-MIB', 'DDD-MIB', 'EEE-MIB']
+    suffix = rng.choice(['', '.json', '.json'])
     builds = []
     for i in range(rng.choice([2, 2, 3, 3, 4, 5, 6])):
         r = rng.random()
@@ -102,22 +103,29 @@ def generate(rng, tier):
                         if sp2.get('oidparent') == bad:
                             sp2['oidparent'] = None
                 b['requested'] = [bad] + [n2 for n2 in sorted(specs) if n2 != bad]
+        elif r < 0.45 and suffix == '.json':
+            specs = mibgen.gen_modules(rng, rng.choice([1, 2]), cycles=False, defects=0.0, compliance=0.5)
+            fl = []
+            for f_, p_ in (('--rebuild', .5), ('--ignore-errors', .3), ('--no-dependencies', .15), ('--generate-mib-texts', .2)):
+                if rng.random() < p_:
+                    fl.append(f_)
+            b = {'kind': 'mibdump', 'modules': specs, 'requested': [sorted(specs)[-1]], 'flags': fl}
         else:
             b = {'kind': 'direct', 'map': gen_status_map(rng, rng.sample(names, rng.choice([1, 2, 3, 4])))}
-        if rng.random() < 0.12:
+        if rng.random() < 0.12 and b['kind'] != 'mibdump':
             b['dryRun'] = True
         if rng.random() < 0.15:
             b['ignoreErrors'] = True
         builds.append(b)
-    scn = {'builds': builds, 'suffix': rng.choice(['', '.json'])}
+    scn = {'builds': builds, 'suffix': suffix}
     if rng.random() < 0.4:
         # two long-lived compilers sharing the destination instead of a fresh one per build
         scn['persistent'] = True
         for b in builds:
             b['who'] = rng.choice(['A', 'A', 'B'])
     r = rng.random()
-    if r < 0.25:
-        k = rng.randrange(len(builds))
+    if r < 0.25 and any(b['kind'] != 'mibdump' for b in builds):
+        k = rng.choice([j for j, b in enumerate(builds) if b['kind'] != 'mibdump'])
         scn['faults'] = [{'op': k, 'site': rng.choice(['mkstemp', 'os.write', 'os.close', 'os.rename']), 'nth': 0,
                           'action': 'errno', 'arg': rng.choice(['EIO', 'ENOSPC', 'EACCES'])}]
         if rng.random() < 0.4:
@@ -202,6 +210,8 @@ def run(scn):
                     truth = truths.get(b['of'], {})
                 elif b['kind'] == 'direct':
                     statuses = to_statuses(b['map'])
+                elif b['kind'] == 'mibdump':
+                    statuses = None     # produced by the script itself, see below
                 else:
                     specs = b['modules']
                     texts = dict(basemibs.BASE)
@@ -220,11 +230,38 @@ def run(scn):
                             raise
                         statuses = {}
                         w.probe('compile-raised-in-c18')
-                maps.append(statuses)
                 before = core.read_bytes(idxfile)
                 fired_before = len(w.fired_list)
                 try:
-                    comp.buildIndex(statuses, dryRun=b.get('dryRun', False), ignoreErrors=b.get('ignoreErrors', False))
+                    if b['kind'] == 'mibdump':
+                        # the index is built by scripts/mibdump.py --build-index run in-process over generated files
+                        from verif.checks import c20
+                        specs = b['modules']
+                        srcd = os.path.join(root, 'src%d' % i)
+                        with core.unhooked():
+                            os.makedirs(srcd)
+                            os.makedirs(os.path.join(root, 'noborrow'), exist_ok=True)
+                            for n, txt in basemibs.ALL_BASE.items():
+                                with open(os.path.join(srcd, n), 'w') as f:
+                                    f.write(txt)
+                            for n, sp in specs.items():
+                                with open(os.path.join(srcd, n), 'w') as f:
+                                    f.write(mibgen.render(sp, specs))
+                        for n, sp in specs.items():
+                            if sp.get('variant', 'ok') == 'ok':
+                                truth[n] = set(mibgen.dotted(o) for o in mibgen.defined_oids(sp, specs))
+                        truths[i] = truth
+                        argv = ['--mib-source=file://' + srcd, '--mib-borrower=' + os.path.join(root, 'noborrow'), '--mib-searcher=nosuchpkg_sim',
+                                '--destination-directory=' + dst, '--destination-format=json', '--build-index', '--mib-stub=NONE-MIB'] + list(b.get('flags', [])) + list(b['requested'])
+                        capt = c20._Capture()
+                        code, errtxt = c20.run_script(c20.MIBDUMP, argv, w, capt)
+                        statuses = capt.maps[-1] if capt.maps else {}
+                        if isinstance(code, str):
+                            raise RuntimeError('mibdump died: %s' % code)
+                        if code not in (0, 79):
+                            raise error.PySmiError('mibdump exit %s' % code)
+                    else:
+                        comp.buildIndex(statuses, dryRun=b.get('dryRun', False), ignoreErrors=b.get('ignoreErrors', False))
                     res = 'ok'
                 except error.PySmiError as e:
                     res = 'pkgerror:%s' % type(e).__name__
@@ -233,6 +270,7 @@ def run(scn):
                         raise
                     res = 'foreign:%s' % type(e).__name__
                 w.end_op(res)
+                maps.append(statuses if statuses is not None else {})
                 after = core.read_bytes(idxfile)
                 faulted = len(w.fired_list) > fired_before
                 write_fault = any(f['site'] in ('mkstemp', 'os.write', 'os.close', 'os.rename') for f in w.fired_list[fired_before:])
@@ -248,12 +286,15 @@ def run(scn):
                     if corrupt_now:
                         break
                     continue
+                if b['kind'] == 'mibdump' and faulted:
+                    # the fault may have hit a module file rather than the index: not judged, model resynchronised below
+                    read_fault, write_fault = True, False
                 if write_fault or corrupt_now:
                     # 6. failed write / unparseable old index: file bytes unchanged, package error unless ignored
                     if after != before:
                         V('C18.6-failed-write', 'index file changed although the build failed (%s)' % ('write fault' if write_fault else 'corrupt old index'),
                           what='changed-after-failure', corrupt=corrupt_now)
-                    if res == 'ok' and not b.get('ignoreErrors'):
+                    if res == 'ok' and not (b.get('ignoreErrors') or '--ignore-errors' in b.get('flags', [])):
                         V('C18.6-failed-write', 'index build reported success although %s' % ('the write failed' if write_fault else 'the old index is unparseable'),
                           what='silent-failure', corrupt=corrupt_now)
                     if corrupt_now:
@@ -445,6 +486,6 @@ def size(scn):
 def describe(scn, out):
     d = copy.deepcopy({k: v for k, v in scn.items() if k != '_world'})
     for b in d['builds']:
-        if b['kind'] == 'compile':
+        if b['kind'] in ('compile', 'mibdump'):
             b['modules'] = sorted(b['modules'])
     return {'scenario': d, 'shapes': out.get('shapes'), 'faults_fired': out.get('fired')}
